@@ -83,23 +83,37 @@ static int validate_checksums(zckCtx *zck, zck_log_type bad_checksums) {
             return 0;
 
         size_t rlen = 0;
+        bool truncated = false;
         while(rlen < idx->comp_length) {
             size_t rsize = BUF_SIZE;
             if(BUF_SIZE > idx->comp_length - rlen)
                 rsize = idx->comp_length - rlen;
-            if(read_data(zck, buf, rsize) != rsize)
-                zck_log(ZCK_LOG_DEBUG, "No more data");
-            if(!hash_update(zck, &(zck->check_chunk_hash), buf, rsize))
+            ssize_t rb = read_data(zck, buf, rsize);
+            if(rb < 0)
                 return 0;
-            if(!zck->has_uncompressed_source) {
-                if(!hash_update(zck, &(zck->check_full_hash), buf, rsize))
+            if((size_t)rb != rsize) {
+                /* The file ends inside this chunk, so whatever the buffer
+                 * still holds is not part of it */
+                zck_log(ZCK_LOG_DEBUG, "No more data");
+                truncated = true;
+            }
+            if(rb > 0) {
+                if(!hash_update(zck, &(zck->check_chunk_hash), buf, rb))
                     return 0;
+                if(!zck->has_uncompressed_source) {
+                    if(!hash_update(zck, &(zck->check_full_hash), buf, rb))
+                        return 0;
+                }
             }
             rlen += rsize;
         }
         int valid_chunk = validate_chunk(idx, bad_checksums);
         if(!valid_chunk)
             return 0;
+        if(truncated) {
+            valid_chunk = -1;
+            idx->valid = -1;
+        }
         idx->valid = valid_chunk;
         if(all_good && valid_chunk != 1)
             all_good = false;
